@@ -144,6 +144,27 @@ fn resolve2(dann: &Dump, state: usize, t: usize, cand: &[VAction], glr: bool, ps
     (exp, label)
 }
 
+/// The same grammar written in another order: start rule first, the other rules and all alternatives reversed.
+pub fn permuted(g: &AG) -> AG {
+    let n = g.rules.len();
+    let newpos = |old: usize| if old == 0 { 0 } else { n - old };
+    let mut rules: Vec<Rule> = vec![g.rules[0].clone()];
+    for old in (1..n).rev() {
+        rules.push(g.rules[old].clone());
+    }
+    for r in &mut rules {
+        r.alts.reverse();
+        for a in &mut r.alts {
+            for s in &mut a.syms {
+                if let Sym::N(k) = s {
+                    *k = newpos(*k);
+                }
+            }
+        }
+    }
+    AG { terms: g.terms.clone(), rules }
+}
+
 pub struct Variant {
     pub ann: AG,
     pub glr: bool,
@@ -224,6 +245,22 @@ pub fn judge_variant(base: &AG, v: &Variant, wd: &Workdir, rep: &mut Rep) {
             if exp != gs {
                 rep.violation("C05", &sig(&format!("cell:{}", label)), &format!("state {} on {}: candidates {} resolved to {} but the documented rule ({}) keeps {}", si, dann.grammar.terminals[t].name, acts_str(cand), acts_str(got), label, acts_str(&exp)), case(cell(Some(&exp))));
             }
+        }
+    }
+    // The documented rule is a function of priorities, associativities and settings only: writing the same rules and
+    // alternatives in another order must not change whether LR mode reports a conflict.
+    if !v.glr {
+        let multiway = draw.table.states.iter().any(|s| s.actions.iter().any(|c| c.len() > 2));
+        let perm = permuted(&v.ann);
+        let pc = wd.compile(&perm.text(), &ann_spec);
+        rep.count("order_permutations_compiled", 1);
+        if multiway {
+            rep.count("order_permutations_with_multiway_cell", 1);
+        }
+        if !pc.outcome.is_panic() && pc.outcome.is_ok() != ann.outcome.is_ok() {
+            let what = format!("LR mode returns {} for the grammar and {} for the same rules written in another order", ann.outcome.show().chars().take(80).collect::<String>(), pc.outcome.show().chars().take(80).collect::<String>());
+            let s = if multiway { "order-dependence:multiway-cell".to_string() } else { sig("order-dependence") };
+            rep.violation("C05", &s, &what, case(json!({"permuted_grammar": perm.text(), "multiway_cell": multiway})));
         }
     }
     if !v.glr {
